@@ -244,6 +244,9 @@ def run(cx):
     timers_scheduled(cx, "C07.l")
     with cx.instance("C07.j", "T8 TABLE", "the HandshakeErrorType byte tables of writer and reader are inverse; unknown bytes are refused", floor=1) as inst:
         error_type_tables(cx, inst)
+    # what is advertised and enforced is what the application configured
+    from props.shared import config_verbatim
+    config_verbatim(cx, "C07.m")
 
 
 SELFTEST = [
